@@ -1,6 +1,6 @@
 (* C01 — Generated NumPy rhs computes exactly the derivatives the model text defines.
    Theorems only; every proof is [exact <lemma of the development>]. *)
-From GX Require Import Base Expr Topo KahnSound Ode OrderSound Target Sem Codegen Load Valid MirrorValid LoadWf Run Carriers Examples Singular.
+From GX Require Import Base Expr Topo KahnSound Ode OrderSound Target Sem Codegen Load Valid MirrorValid LoadWf Run Carriers Examples Singular Parse Lex.
 Open Scope string_scope.
 Open Scope list_scope.
 
@@ -129,3 +129,25 @@ Theorem C01_a_relation_and_its_indicator_conditional_have_the_same_value :
     forall rho r a b, eval N rho (ECond (ERel r a b) e_one e_zero) = eval N rho (ERel r a b).
 Proof. exact @indicator_conditional_is_the_relation. Qed.
 Print Assumptions C01_a_relation_and_its_indicator_conditional_have_the_same_value.
+
+(* integer, decimal and scientific literals: the number token the lexer makes of mantissa digits m, fl of them behind the
+   point, and exponent ex is the rational m * 10^(ex - fl) (in lowest terms, the form the harness obtains from Python's
+   Fraction of the literal's text) *)
+Theorem C01_a_literal_has_its_decimal_value :
+  forall m fl ex,
+    QArith_base.Qeq (lit_value m fl ex)
+      (QArith_base.Qmult (QArith_base.inject_Z (Z.of_N m)) (QArith_base.Qpower (QArith_base.inject_Z 10) (Z.sub ex (Z.of_N fl)))).
+Proof. exact lit_value_spec. Qed.
+Print Assumptions C01_a_literal_has_its_decimal_value.
+
+(* precedence and associativity from the characters on (computed examples of Lex.lex followed by Parse.parse_expr) *)
+Theorem C01_precedence_from_characters :
+  parse_string "a - b - c ** 2 ** k" =
+    Some (ESub (ESub (EVar "a") (EVar "b")) (EPow (EVar "c") (EPow (ENum (QArith_base.Qmake 2 1) true) (EVar "k"))))
+  /\ parse_string "-x**2 + 3*y/z*w" =
+    Some (EAdd (ENeg (EPow (EVar "x") (ENum (QArith_base.Qmake 2 1) true))) (EMul (EDiv (EMul (ENum (QArith_base.Qmake 3 1) true) (EVar "y")) (EVar "z")) (EVar "w")))
+  /\ parse_string "2**-x" = Some (EPow (ENum (QArith_base.Qmake 2 1) true) (ENeg (EVar "x")))
+  /\ parse_string "1.5e-3*x" = Some (EMul (ENum (QArith_base.Qmake 3 2000) false) (EVar "x"))
+  /\ parse_string "1e2e3" = None.
+Proof. vm_compute. repeat split; reflexivity. Qed.
+Print Assumptions C01_precedence_from_characters.
